@@ -583,7 +583,16 @@ pub fn generate(seed: u64, case: u64, max_steps: usize) -> Ran {
                 let e = if r.chance(1, 2) { Exp::H(h + 6) } else { Exp::T(t + 6_000) };
                 pending.push_back(Step { h, t, s: adm, op: Op::Inc { sp: Arg::Id(g), c: (d, Uint128::new(a)), e: Some(e) } });
                 pending.push_back(Step { h, t, s: g, op: Op::Execute { msgs: vec![CMsg::BankSend { to: any, coins: vec![(d, Uint128::new(a))] }] } });
+                // the exhausted (but stored and unexpired) grant is asked for nothing: CanExecute and Execute must agree
+                pending.push_back(Step { h, t, s: g, op: Op::Execute { msgs: vec![CMsg::BankSend { to: any, coins: if r.chance(1, 2) { vec![] } else { vec![(d, Uint128::zero())] } }] } });
                 pending.push_back(Step { h: h + 1, t: t + 1_000, s: adm, op: Op::Inc { sp: Arg::Id(g), c: (d, Uint128::new(b)), e: None } });
+                if r.chance(1, 2) {
+                    // a new grant with a new deadline, issued in the very block (at the very time) the old one expires:
+                    // the old remainder must not be carried over
+                    let c = 1 + r.below(20) as u128;
+                    let e2 = if r.chance(1, 2) { Exp::H(h + 20) } else { Exp::T(t + 20_000) };
+                    pending.push_back(Step { h: h + 6, t: t + 6_000, s: adm, op: Op::Inc { sp: Arg::Id(g), c: (d, Uint128::new(c)), e: Some(e2) } });
+                }
                 pending.push_back(Step { h: h + 8, t: t + 8_000, s: g, op: Op::Execute { msgs: vec![CMsg::BankSend { to: any, coins: vec![(d, Uint128::new(b))] }] } });
                 continue;
             }
